@@ -11,6 +11,7 @@ sys.path.insert(0, '.')
 from vlib import native
 from mirsym import load
 print('replay binary:', native.build('dev'))
+print('replay binary (ASan):', native.build_asan())
 p = load.program()
 print('MIR bodies:', len(p.bodies))
 from vlib import kani
